@@ -348,8 +348,18 @@ class CrawlRun(object):
 
         class TracingMixin(object):
             def __init__(self, *a, **kw):
-                self._base.__init__(self, *a, **kw)
                 import sqlalchemy.event
+                import sqlalchemy.engine
+                # the schema is created statement by statement while the table object is constructed: every data
+                # definition statement is an event (and thereby a crash point) too
+                def on_ddl(conn, cursor, statement, parameters, context, executemany):
+                    if statement.lstrip()[:6].upper() in ('CREATE', 'ALTER ', 'DROP T', 'DROP I'):
+                        run.log(e='ddl', what=' '.join(statement.split()[:3]))
+                if not getattr(run, '_ddl_hooked', False):
+                    run._ddl_hooked = True
+                    run._ddl_fn = on_ddl
+                    sqlalchemy.event.listen(sqlalchemy.engine.Engine, 'after_cursor_execute', on_ddl)
+                self._base.__init__(self, *a, **kw)
                 # every COMMIT is an event of its own (and thereby a crash point): a change that splits one
                 # logical operation into several transactions shows up as additional commits
                 sqlalchemy.event.listen(self._session_maker_instance, 'after_commit',
@@ -470,6 +480,14 @@ class CrawlRun(object):
             self.exit_code = val if kind == 'ok' else None
         finally:
             os.chdir(old)
+            if getattr(self, '_ddl_fn', None) is not None:
+                import sqlalchemy.event
+                import sqlalchemy.engine
+                try:
+                    sqlalchemy.event.remove(sqlalchemy.engine.Engine, 'after_cursor_execute', self._ddl_fn)
+                except Exception:
+                    pass
+                self._ddl_fn = None
             if getattr(self, '_restore', None):
                 self._restore[0].GenericSQLURLTable = self._restore[1]
             if self.trace_fd is not None:
